@@ -1,5 +1,7 @@
 -- Root of the `Secp` library: everything `setup.sh` builds once.
 import Secp.Driver
+import Secp.Props.C05
+import Secp.Props.C16
 import Secp.Props.C08
 import Secp.Props.C09
 import Secp.Props.C19
